@@ -103,6 +103,8 @@ pub struct GenK {
     /// source handed back by TakeSource, fd can be re-inserted
     pub released: bool,
     pub ret_in_pe: Option<crate::program::Ret>,
+    /// a regular file: the poller rejects it
+    pub unusable: bool,
     pub written: u64,
     pub read: u64,
 }
@@ -154,6 +156,8 @@ pub struct Src {
     pub reenabled: bool,
     pub rereg_count_expected: u32,
     pub removed_in_own_cb: bool,
+    /// expected register / reregister / unregister calls on the wrapped source (C09)
+    pub exp: [u32; 3],
 }
 
 #[derive(Clone, Copy, Debug, PartialEq, Eq)]
@@ -200,6 +204,7 @@ pub struct St {
     pub cur_idle: Option<Id>,
     /// ids whose slot may legitimately still be occupied / freed late (none today)
     pub dispatch_error_seen: bool,
+    pub any_dispatch_error: bool,
     pub dup_fds: BTreeSet<Id>,
     /// C12: earliest armed deadline (model) when the wait was entered
     pub wait_next_deadline: Option<u64>,
